@@ -122,6 +122,12 @@ def main(tier):
                                 r4 = fac(u) / total.value
                                 if ppb(r4) > ppb(ratio_scalar):
                                     ratio_scalar = r4
+                                # ... and read with the label the library shows for the composed amount (units joined over the categories)
+                                m5 = comp_.value
+                                for uu_, ee_ in comp_.GetQuantity().GetComposingUnitsJoiningExponents():
+                                    m5 *= fac(uu_) ** ee_
+                                if ppb(fac(u) / m5) > ppb(ratio_scalar):
+                                    ratio_scalar = fac(u) / m5
                             except ZeroDivisionError:
                                 pass
                     # a pure power / reciprocal of one unit: also through the library's own conversion of the derived quantity
